@@ -82,11 +82,9 @@ def beLimb (data : List Nat) (i : Nat) : Nat :=
     (data.getD (8 * i + 4) 0 % 256 + 256 * (data.getD (8 * i + 3) 0 % 256 + 256 * (data.getD (8 * i + 2) 0 % 256 + 256 *
     (data.getD (8 * i + 1) 0 % 256 + 256 * (data.getD (8 * i) 0 % 256)))))))
 
-/-- the limbs mpz_import stores at zp[0, …) (import.c:55-157) and whether the reads stayed inside `data`;
-    `align` = `((char *) data - (char *) NULL) % sizeof (mp_limb_t)` -/
-def importLimbs (count : Nat) (order : Int) (size : Nat) (endian : Int) (nail : Nat) (align : Nat) (data : List Nat) :
+/-- import.c:58-166 with `endian` already resolved (1 or -1) -/
+def importLimbsE (count : Nat) (order : Int) (size : Nat) (endian : Int) (nail : Nat) (align : Nat) (data : List Nat) :
     List Nat × Bool :=
-  let endian := if endian == 0 then -1 else endian                            -- :55-56 HOST_ENDIAN
   if nail == 0 && order == -1 && size == 8 && endian == -1 && align == 0 then -- :60-67
     ((List.range count).map (leLimb data), decide (8 * count ≤ data.length))  -- :69 MPN_COPY (zp, data, count)
   else if nail == 0 && order == -1 && size == 8 && endian == 1 && align == 0 then   -- :73-76
@@ -94,6 +92,12 @@ def importLimbs (count : Nat) (order : Int) (size : Nat) (endian : Int) (nail : 
   else if nail == 0 && order == 1 && size == 8 && endian == -1 && align == 0 then   -- :82-85
     ((List.range count).map (fun i => leLimb data (count - 1 - i)), decide (8 * count ≤ data.length))   -- :87 MPN_REVERSE
   else importGeneric count order size endian nail data                        -- :92-166
+
+/-- the limbs mpz_import stores at zp[0, …) (import.c:55-157) and whether the reads stayed inside `data`;
+    `align` = `((char *) data - (char *) NULL) % sizeof (mp_limb_t)` -/
+def importLimbs (count : Nat) (order : Int) (size : Nat) (endian : Int) (nail : Nat) (align : Nat) (data : List Nat) :
+    List Nat × Bool :=
+  importLimbsE count order size (if endian == 0 then -1 else endian) nail align data   -- :55-56 HOST_ENDIAN = -1
 
 /-- mpz_import (z, count, order, size, endian, nail, data), import.c:40-172.  `zsize - minus` = the size requested from
     MPZ_REALLOC (`zsize` in the C: minus = 0).  Preconditions (the C's ASSERTs): order = ±1, endian ∈ {1, 0, -1},
